@@ -20,6 +20,9 @@ import (
 	"verifharness/lib"
 )
 
+// CaseTimeout bounds one case (normally a few milliseconds).
+const CaseTimeout = 15 * time.Second
+
 const (
 	NPre   = 2
 	NSamp  = 8
@@ -323,13 +326,13 @@ func (s *Session) openUnderRoot() int {
 
 type writingMsg struct {
 	Active, Paused, WriteLJH22, WriteOFF, WriteLJH3 bool
-	BasePath, FilenamePattern                      string
+	BasePath, FilenamePattern                       string
 }
 
 // writingBroadcast: after a successful request exactly the reported state must have been broadcast as WRITING;
 // after a failed one no WRITING message may appear.
 func (s *Session) writingBroadcast(ok bool, rep Rep) bool {
-	deadline := time.Now().Add(3 * time.Second)
+	deadline := time.Now().Add(10 * time.Second)
 	var seen []writingMsg
 	for {
 		for _, m := range s.B.Messages() {
